@@ -27,7 +27,8 @@ def react_of(h, offset_counts=None):
 
 def scenarios(case, mode):
     first, second = case['first'], case['second']
-    base = {"ws_kwargs": {"compress": True}, "connect_kwargs": {"poll": 5, "ping_rate": 0}, "seed": 7}
+    base = {"ws_kwargs": {"compress": True, "protocols": ["chat"]}, "headers": [["X-Custom", "one"], ["Origin", "http://example.com"]],
+            "connect_kwargs": {"poll": 5, "ping_rate": 0}, "seed": 7}
     fresh = dict(base, conns=[conn_of(second)], react=react_of(second))
     # reactions are keyed by the k-th occurrence of an event name over the whole run: shift those of history 2
     chained = dict(base, conns=[conn_of(first), conn_of(second)], nconnect=2)
